@@ -151,6 +151,7 @@ class C15(Check):
         "scheduling point; states = (files, per process: points passed + hash of observations); all reachable states explored; invariant: every process "
         "raised or returned the reference, and so does a fresh load afterwards. non-trivial = transition that changes the canonical state (E2) / "
         "state in which at least two processes are mid-run (E3)"
+        " Further: racing loaders of which one crashes at any of its file operations."
     )
     assumptions = [
         "crash model = process crash, completed writes persist, buffered bytes are lost; no torn single write, no power-loss reordering",
